@@ -9,7 +9,8 @@ proves, directly on the executable model and with **no** side condition on the o
 user-level write path only ever *appends whole frames* to the data files of the handle's directory:
 
 * `FExt b b'`   — the bytes `b'` are `b` followed by a run of appended (non-empty) records;
-* `DExt fs fs'` — every file of `fs` is still there in `fs'`, extended in that sense;
+* `DExt a fs fs'` — every file of `fs` is still there in `fs'`, extended in that sense, and the
+  files with id `< a` (the older files) are byte-identical;
 * `Top fs a`    — file ids ascend and none lies above the active id `a` (so a rotation creates a
   *new* file);
 * `Adv s db s' db'` — the step relation: same directory, `Top` is kept and the files are extended;
@@ -54,16 +55,22 @@ theorem FExt.record (b : ByteArray) (r : Record) : FExt b (appendRec C b (encode
 /-- the data files of the handle's directory -/
 def filesOf (s : St) (db : DB) : List (Nat × FileSt) := (dirOf s db).data
 
-def DExt (fs fs' : List (Nat × FileSt)) : Prop :=
-  ∀ id f, getFile fs id = some f → ∃ f', getFile fs' id = some f' ∧ FExt f.bytes f'.bytes
+/-- every file of `fs` is still there in `fs'`, extended by appended records; the files below the
+    (old) active id `a` — the immutable *older files*, which Go reads without holding `db.mu` — are
+    byte-identical -/
+def DExt (a : Nat) (fs fs' : List (Nat × FileSt)) : Prop :=
+  ∀ id f, getFile fs id = some f →
+    ∃ f', getFile fs' id = some f' ∧ FExt f.bytes f'.bytes ∧ (id < a → f'.bytes = f.bytes)
 
-theorem DExt.refl (fs : List (Nat × FileSt)) : DExt fs fs := fun _ f h => ⟨f, h, FExt.refl _⟩
+theorem DExt.refl (a : Nat) (fs : List (Nat × FileSt)) : DExt a fs fs :=
+  fun _ f h => ⟨f, h, FExt.refl _, fun _ => rfl⟩
 
-theorem DExt.trans {a b c : List (Nat × FileSt)} (h : DExt a b) (h' : DExt b c) : DExt a c := by
+theorem DExt.trans {a a' : Nat} {x y z : List (Nat × FileSt)} (h : DExt a x y) (h' : DExt a' y z)
+    (hle : a ≤ a') : DExt a x z := by
   intro id f hf
-  obtain ⟨f1, h1, e1⟩ := h id f hf
-  obtain ⟨f2, h2, e2⟩ := h' id f1 h1
-  exact ⟨f2, h2, e1.trans e2⟩
+  obtain ⟨f1, h1, e1, k1⟩ := h id f hf
+  obtain ⟨f2, h2, e2, k2⟩ := h' id f1 h1
+  exact ⟨f2, h2, e1.trans e2, fun hlt => by rw [k2 (by omega), k1 hlt]⟩
 
 /-- file ids strictly ascending, no file above the active id -/
 def Top (fs : List (Nat × FileSt)) (a : Nat) : Prop := AscF fs ∧ ∀ id, a < id → getFile fs id = none
@@ -88,25 +95,25 @@ theorem activeFile_eq (s : St) (db : DB) :
 /-! ## the step relation on (state, handle) pairs -/
 
 def Adv (s : St) (db : DB) (s' : St) (db' : DB) : Prop :=
-  db'.dir = db.dir ∧
+  db'.dir = db.dir ∧ db.activeId ≤ db'.activeId ∧
     (Top (filesOf s db) db.activeId →
-      Top (filesOf s' db') db'.activeId ∧ DExt (filesOf s db) (filesOf s' db'))
+      Top (filesOf s' db') db'.activeId ∧ DExt db.activeId (filesOf s db) (filesOf s' db'))
 
-theorem Adv.refl (s : St) (db : DB) : Adv s db s db := ⟨rfl, fun h => ⟨h, DExt.refl _⟩⟩
+theorem Adv.refl (s : St) (db : DB) : Adv s db s db := ⟨rfl, Nat.le_refl _, fun h => ⟨h, DExt.refl _ _⟩⟩
 
 theorem Adv.trans {s s' s'' : St} {db db' db'' : DB} (h : Adv s db s' db') (h' : Adv s' db' s'' db'') :
     Adv s db s'' db'' := by
-  refine ⟨h'.1.trans h.1, fun ht => ?_⟩
-  obtain ⟨t1, e1⟩ := h.2 ht
-  obtain ⟨t2, e2⟩ := h'.2 t1
-  exact ⟨t2, e1.trans e2⟩
+  refine ⟨h'.1.trans h.1, Nat.le_trans h.2.1 h'.2.1, fun ht => ?_⟩
+  obtain ⟨t1, e1⟩ := h.2.2 ht
+  obtain ⟨t2, e2⟩ := h'.2.2 t1
+  exact ⟨t2, e1.trans e2 h.2.1⟩
 
 /-- nothing on disk changed, the handle keeps directory and active id -/
 theorem Adv.same {s s' : St} {db db' : DB} (hw : s'.world = s.world) (hd : db'.dir = db.dir)
     (ha : db'.activeId = db.activeId) : Adv s db s' db' := by
-  refine ⟨hd, fun ht => ?_⟩
+  refine ⟨hd, Nat.le_of_eq ha.symm, fun ht => ?_⟩
   rw [filesOf_congr hw hd, ha]
-  exact ⟨ht, DExt.refl _⟩
+  exact ⟨ht, DExt.refl _ _⟩
 
 /-- the handle on the right may be replaced by one with the same directory and active id -/
 theorem Adv.handle {s s' : St} {db db' db'' : DB} (h : Adv s db s' db') (hd : db''.dir = db'.dir)
@@ -117,7 +124,7 @@ theorem Adv.handle {s s' : St} {db db' db'' : DB} (h : Adv s db s' db') (hd : db
 theorem Adv_putActive (s : St) (db : DB) (f' : FileSt) {db' : DB} (hd : db'.dir = db.dir)
     (ha : db'.activeId = db.activeId) (he : FExt (activeFile s db).bytes f'.bytes) :
     Adv s db (putFile s db db.activeId f') db' := by
-  refine ⟨hd, fun ht => ?_⟩
+  refine ⟨hd, Nat.le_of_eq ha.symm, fun ht => ?_⟩
   rw [filesOf_putFile s db _ _ hd, ha]
   refine ⟨⟨AscF_setFile ht.1 _ _, ?_⟩, ?_⟩
   · intro id hid
@@ -127,15 +134,15 @@ theorem Adv_putActive (s : St) (db : DB) (f' : FileSt) {db' : DB} (hd : db'.dir 
     rw [getFile_setFile]
     by_cases e : id = db.activeId
     · rw [if_pos e]
-      refine ⟨f', rfl, ?_⟩
+      refine ⟨f', rfl, ?_, fun hlt => absurd hlt (by omega)⟩
       rw [activeFile_eq, ← e, hf] at he
       exact he
     · rw [if_neg e]
-      exact ⟨f, hf, FExt.refl _⟩
+      exact ⟨f, hf, FExt.refl _, fun _ => rfl⟩
 
 /-- **primitive 2**: `db.sync()` / `setActiveFile` — under `Top` the new id is unused -/
 theorem Adv_rotate (s : St) (db : DB) : Adv s db (rotate s db).1 (rotate s db).2 := by
-  refine ⟨rfl, fun ht => ?_⟩
+  refine ⟨rfl, Nat.le_succ _, fun ht => ?_⟩
   have hfs : filesOf (rotate s db).1 (rotate s db).2
       = setFile (setFile (filesOf s db) db.activeId
           { activeFile s db with synced := (activeFile s db).bytes.size }) (db.activeId + 1) ⟨ByteArray.empty, 0⟩ := by
@@ -161,11 +168,13 @@ theorem Adv_rotate (s : St) (db : DB) : Adv s db (rotate s db).1 (rotate s db).2
     rw [getFile_setFile, if_neg (by omega), getFile_setFile]
     by_cases e : id = db.activeId
     · rw [if_pos e]
-      refine ⟨_, rfl, ?_⟩
-      rw [activeFile_eq, ← e, hf]
-      exact FExt.refl _
+      refine ⟨_, rfl, ?_, fun _ => ?_⟩
+      · rw [activeFile_eq, ← e, hf]
+        exact FExt.refl _
+      · rw [activeFile_eq, ← e, hf]
+        rfl
     · rw [if_neg e]
-      exact ⟨f, hf, FExt.refl _⟩
+      exact ⟨f, hf, FExt.refl _, fun _ => rfl⟩
 
 /-! ## `appendLogRecord` -/
 
@@ -422,7 +431,7 @@ theorem Top_of_Files {s : St} {db : DB} {g : GDir} (h : Files s db g) : Top (fil
 
 /-- **a logged position still resolves to the logged value** after the files were extended -/
 theorem valueAt_ext {s s' : St} {db db' : DB} {g : GDir} (h : Files s db g)
-    (hext : DExt (filesOf s db) (filesOf s' db')) {r : Record} {p : Pos} (hm : (r, p) ∈ logOf g) :
+    {a : Nat} (hext : DExt a (filesOf s db) (filesOf s' db')) {r : Record} {p : Pos} (hm : (r, p) ∈ logOf g) :
     valueAt s' db' p = .val r.value := by
   obtain ⟨x, hx, hz⟩ := mem_logOf.mp hm
   obtain ⟨id, gf⟩ := x
@@ -431,7 +440,7 @@ theorem valueAt_ext {s s' : St} {db db' : DB} {g : GDir} (h : Files s db g)
   obtain ⟨f, hf, hb⟩ := Matches_getFile hmt h.asc hx
   have hf0 : getFile (filesOf s db) id = some f := by
     unfold filesOf; rw [dirOf_eq hd]; exact hf
-  obtain ⟨f', hf', ds, hds, hbytes⟩ := hext id f hf0
+  obtain ⟨f', hf', ⟨ds, hds, hbytes⟩, _⟩ := hext id f hf0
   have hok : RecOK r := h.recs _ hx r (List.of_mem_zip hz).1
   obtain ⟨ht, _, hk, hv, hbt⟩ := hok
   -- the later bytes are the ghost payloads followed by the appended ones
@@ -458,7 +467,7 @@ theorem Step.valueAt {s s' : St} {db : DB} {g : GDir} (hst : Step s s') (hdb : s
     (hi : Inv s db g) {k : Key} {p : Pos} (hm : (k, p) ∈ db.index) :
     ∃ db' v, s'.db = some db' ∧ db'.dir = db.dir ∧ absGet s db k = some v ∧
       Engine.valueAt s db p = .val v ∧ Engine.valueAt s' db' p = .val v := by
-  obtain ⟨db', hdb', hdir, hadv⟩ := hst db hdb
+  obtain ⟨db', hdb', hdir, _, hadv⟩ := hst db hdb
   obtain ⟨_, hext⟩ := hadv (Top_of_Files hi.files)
   obtain ⟨r, hr, _⟩ := hi.index_from_log hm
   have hget : Index.get db.index k = some p := Index.mem_get_of_sorted hi.sorted hm
